@@ -174,6 +174,11 @@ func (vc *VC) call(ins ssa.Instruction, c *ssa.CallCommon, v *ssa.Call) {
 			vc.fail("call %s modifies %s: %v", shortKey(key), m.Text, err)
 		}
 	}
+	for _, gs := range spec.Sets {
+		if err := vc.setGhost(env, gs); err != nil {
+			vc.fail("call %s sets %s: %v", shortKey(key), gs.Name, err)
+		}
+	}
 	nt := vc.havocComp("top", "Int")
 	vc.assume(fmt.Sprintf("(>= %s %s)", nt, oldTop))
 	var rnames []string
@@ -877,6 +882,9 @@ func (vc *VC) frame(x *ssa.Return) {
 	var allows []allow
 	env := vc.entryEnv()
 	allowAllComp := map[string]bool{}
+	for _, gs := range vc.spec.Sets {
+		allowAllComp["G|"+gs.Name] = true
+	}
 	for _, m := range vc.spec.Modifies {
 		switch n := m.Expr.(type) {
 		case SIdent:
@@ -1092,4 +1100,26 @@ func (e *Engine) addrTakenFuncs() []*ssa.Function {
 	}
 	sort.Slice(e.addrTaken, func(i, j int) bool { return funcKey(e.addrTaken[i]) < funcKey(e.addrTaken[j]) })
 	return e.addrTaken
+}
+
+// setGhost performs a ghost assignment "g = expr" (contract clause `sets`), evaluated in env.
+func (vc *VC) setGhost(env *SpecEnv, gs GhostSet) error {
+	g, ok := vc.eng.DB.Ghosts[gs.Name]
+	if !ok {
+		return fmt.Errorf("%s is not a ghost variable", gs.Name)
+	}
+	ty, err := env.lookupType(g.Type)
+	if err != nil {
+		return err
+	}
+	t, err := env.eval(gs.C.Expr)
+	if err != nil {
+		return err
+	}
+	s := vc.sortOf(ty)
+	if t.Sort != s {
+		return fmt.Errorf("sort %s, ghost has %s", t.Sort, s)
+	}
+	vc.setComp("G|"+gs.Name, s, t.S)
+	return nil
 }
